@@ -236,7 +236,9 @@ class Real(PackedOps, RandOps):
         covpix = [int(t) for t in split_list(kv.get('covpix', '_'))]
         kw = {}
         if covpix:
-            kw['cov_pixels'] = np.array(covpix, dtype=np.int64)
+            # `idtype=`: the caller's index arrays in a narrow integer type (or a plain list)
+            kw['cov_pixels'] = (list(covpix) if kv.get('idtype') == 'list' else
+                                np.array(covpix, dtype=DTYPES[kv.get('idtype', 'i8')]))
         if kind == 'plain':
             dt = DTYPES[kv['dtype']]
             m = HealSparseMap.make_empty(nc, ns, dt, sentinel=self.decode_sentinel(kv.get('sentinel'), dt), **kw)
@@ -639,6 +641,8 @@ class Real(PackedOps, RandOps):
         kw = {}
         if 'pixels' in kv:
             kw['pixels'] = [int(t) for t in split_list(kv['pixels'])]
+            if kv.get('idtype', 'list') != 'list':
+                kw['pixels'] = np.array(kw['pixels'], dtype=DTYPES[kv['idtype']])
         self.pool[kv['r']] = HealSparseMap.read(path, **kw)
         return 'ok'
 
